@@ -97,11 +97,12 @@ package types
 //@ -- log (properties C03/C04/C13): BaseIndex >= 1, MinIndex >= BaseIndex (equal
 //@ -- except for the head-truncated first segment), IDs below NextSegmentID and
 //@ -- growing, every segment but the last sealed with MinIndex <= MaxIndex and
-//@ -- followed without gap or overlap by the next one.
+//@ -- followed without gap or overlap by the next one; the last one is the unsealed tail.
 //@ predicate PInv(p) = (forall j int :: 0 <= j && j < len(p.Segments) ==> p.Segments[j].BaseIndex >= 1 && p.Segments[j].MinIndex >= p.Segments[j].BaseIndex
 //@         && p.Segments[j].ID < p.NextSegmentID && (j > 0 ==> p.Segments[j].MinIndex == p.Segments[j].BaseIndex))
 //@   && (forall j int :: 0 <= j && j < len(p.Segments) - 1 ==> !iszero(p.Segments[j].SealTime) && p.Segments[j].MinIndex <= p.Segments[j].MaxIndex
 //@         && p.Segments[j+1].BaseIndex == p.Segments[j].MaxIndex + 1 && p.Segments[j+1].ID > p.Segments[j].ID)
+//@   && (len(p.Segments) > 0 ==> iszero(p.Segments[len(p.Segments)-1].SealTime))
 
 //@ -- g_commits counts successful CommitState calls: the durable metadata
 //@ -- changes exactly at those points (atomically, per the MetaStore interface).
@@ -118,6 +119,7 @@ package types
 //@   ensures result1 == nil ==> self.open
 //@   ensures result1 != nil ==> self.open == old(self.open)
 //@   ensures[C03.loaded-pinv] result1 == nil ==> PInv(result0)
+//@   ensures[assumed-headroom] result1 == nil ==> result0.NextSegmentID < 0xfffffffffffffff0
 
 // ---------------------------------------------------------------------------
 // SegmentWriter / SegmentReader as the WAL sees them. Ghost view of a tail
@@ -164,3 +166,19 @@ package types
 //@ interface SegmentFiler.Create
 //@   assigns g_open
 //@   ensures result1 == nil ==> result0 != nil && result0.base == info.BaseIndex && result0.last == 0 && !result0.sealed
+
+//@ interface SegmentFiler.List
+//@   ensures result1 == nil ==> result0 != nil
+//@ -- a recovered tail serves [base, last]; it may be sealed already (the crash
+//@ -- or Close happened after the sealing append, before the rotation committed).
+//@ -- [assumed-C01]: every acknowledged entry is recovered, so a tail that was
+//@ -- head-truncated to MinIndex still reaches MinIndex
+//@ interface SegmentFiler.RecoverTail
+//@   assigns g_open
+//@   ensures result1 == nil ==> result0 != nil && result0.base == info.BaseIndex
+//@   ensures[assumed-C01] result1 == nil ==> (result0.last == 0 || result0.last >= info.MinIndex)
+//@ interface SegmentFiler.Open
+//@   assigns g_open
+//@   ensures result1 == nil ==> result0 != nil
+//@ interface SegmentFiler.Delete
+//@   ensures true
